@@ -136,6 +136,7 @@ def own_chemical(cid, family):
 
 POOL8 = ['Water', 'Ethanol', 'Methanol', 'Propanol', 'Butanol', 'Acetone', 'Hexane', 'Heptane',
          'Octane', 'Benzene', 'Toluene', 'EthylAcetate', 'Pentane', 'Cyclohexane']
+ALKANES = {'Pentane', 'Hexane', 'Heptane', 'Octane', 'Cyclohexane'}
 T_LO, T_HI = 260.0, 480.0
 P_LO, P_HI = 5e3, 3e6
 
@@ -433,12 +434,28 @@ class PointWorld(BaseWorld):
             return False
         return not (q['kind'] == 'bubble' and q['spec'] == 'T' and ev['op'] != 'round_trip')
 
+    def in_bubble_T_water_alkane(self, ev):
+        """C08-bubble-T-water-alkane: a bubble-TEMPERATURE solve on an activity-coefficient package with
+        Water and a C5-C8 alkane / cycloalkane both present (activity coefficients of 1e3-1e5)."""
+        if ev['op'] == 'edit' or self.pk.gamma == 'ideal':
+            return False
+        q = ev['q']
+        if not (ev['op'] == 'order' and q['spec'] == 'P') and not (
+                q['kind'] == 'bubble' and (q['spec'] == 'P' or ev['op'] == 'round_trip')):
+            return False
+        z = self.z_of(q)
+        present = {i for i, v in zip(q['ids'], z) if v > 0}
+        return 'Water' in present and bool(present & ALKANES)
+
     def divert(self, ev):
         """Generator-side avoidance of listed regions. -> 'skip' | None (ev may be edited)"""
         if ev['op'] == 'edit':
             return None
         if 'C08-unnormalised-z' in self.regions and ev['op'] == 'scale' and self.unnormalised(ev):
             self.stats['region:C08-unnormalised-z'] += 1
+            return 'skip'
+        if 'C08-bubble-T-water-alkane' in self.regions and self.in_bubble_T_water_alkane(ev):
+            self.stats['region:C08-bubble-T-water-alkane'] += 1
             return 'skip'
         if 'C08-dew-activity' in self.regions and self.in_dew_activity(ev):
             # inside the region the clause is judged differentially only: the un-faulted query
